@@ -10,7 +10,10 @@ void begin(uint64_t seed, unsigned nthreads, unsigned max_quantum);   // main th
 void thread_enter(unsigned id);     // first call of worker `id`: parks until it is scheduled
 void thread_exit(unsigned id);      // last call of worker `id`: hands the token on
 void start_and_wait();              // main thread: waits until all workers are parked, hands out the token, waits for all to finish
-void yield_point();                 // explicit pre-emption point (simulated system calls)
+void yield_point();                 // explicit pre-emption point
+void syscall_point();               // a simulated system call is being entered: the scheduler pre-empts here with probability 1/2
+                                    // (system calls are the pre-emption points inside otherwise straight-line code, e.g. between
+                                    // two calls that save and restore process-wide state); no-op outside scheduled threads
 uint64_t switch_hash();             // FNV of the sequence of scheduling decisions
 uint64_t switches();
 uint64_t blocks();                  // basic blocks executed under the scheduler
